@@ -99,6 +99,78 @@ Theorem C13_deepcopy_eq : forall g g', wf g -> deep_copy g g' ->
 Proof. exact deepcopy_eq. Qed.
 Print Assumptions C13_deepcopy_eq.
 
+(* ---------------------------------------------------------------------------------- *)
+(* T2: the converse for rooted trees (labels without ( ) / ;)                          *)
+(* ---------------------------------------------------------------------------------- *)
+
+(* the bracket encoding is uniquely readable: on trees whose labels avoid the delimiters
+   it determines the tree up to label-preserving isomorphism of rooted unordered trees
+   (tiso: same label, children lists in bijection with pairwise isomorphic subtrees) *)
+Theorem C13_tree_enc_iff_tiso : forall t1 t2,
+  clean_tree_b t1 = true -> clean_tree_b t2 = true -> (enc t1 = enc t2 <-> tiso t1 t2).
+Proof. exact tree_enc_iff_tiso. Qed.
+Print Assumptions C13_tree_enc_iff_tiso.
+
+(* on an acyclic graph the identifier of a node IS the encoding of the tree obtained by
+   unfolding the graph from that node (no ID_CYCLED, no fuel exhaustion) *)
+Theorem C13_descr_is_enc_of_unfolding : forall g, dag g -> wf g -> forall v, v < List.length g ->
+  exists t k, unfold g k v = Some t /\ descr g v = Some (enc t).
+Proof. exact descr_dag. Qed.
+Print Assumptions C13_descr_is_enc_of_unfolding.
+
+(* single-rooted acyclic graphs (trees included) with delimiter-free labels are == exactly
+   when the unfoldings of their roots are isomorphic trees *)
+Theorem C13_dag_eq_iff_unfold_iso : forall g1 g2 r1 r2,
+  wf g1 -> wf g2 -> dag g1 -> dag g2 -> clean_labels g1 -> clean_labels g2 ->
+  sinks g1 = [r1] -> sinks g2 = [r2] ->
+  (graph_eq g1 g2 = Some true <->
+   exists t1 t2 k1 k2, unfold g1 k1 r1 = Some t1 /\ unfold g2 k2 r2 = Some t2 /\ tiso t1 t2).
+Proof. exact dag_eq_iff_unfold_iso. Qed.
+Print Assumptions C13_dag_eq_iff_unfold_iso.
+
+(* FULL STATEMENT of the converse clause on the index representation (NOT proved):
+
+     [full statement]  C13_tree_eq_iff_iso : forall g1 g2,
+       tree_shaped g1 -> tree_shaped g2 -> clean_labels g1 -> clean_labels g2 ->
+       (graph_eq g1 g2 = Some true <-> exists f, iso g1 g2 f).
+
+   with tree_shaped g := wf g /\ dag g /\ exactly one root /\ every node has at most one child.
+   Proved:  (<-) is C13_graph_eq_iso (any closed graph).  (->) is proved with the
+   isomorphism expressed on the trees: between the unfoldings of the roots
+   (C13_dag_eq_iff_unfold_iso above) and, when the two graphs are the graphs of rooted trees
+   t1, t2 (dg_of_tree: the construction the correspondence check uses for its tree pool),
+   between t1 and t2 themselves (C13_tree_eq_iff_iso_partial below).
+   Missing: turning a tiso derivation into an index bijection f for an arbitrary tree-shaped
+   g (every tree-shaped g is iso to dg_of_tree of its unfolding). *)
+Theorem C13_tree_eq_iff_iso_partial : forall t1 t2,
+  names_ok_b t1 = true -> names_ok_b t2 = true ->
+  (graph_eq (dg_of_tree t1) (dg_of_tree t2) = Some true <-> tiso t1 t2).
+Proof. exact tree_eq_iff_iso_names. Qed.
+Print Assumptions C13_tree_eq_iff_iso_partial.
+
+(* the graph of a rooted tree is closed, acyclic, has the single root 0, and the identifier
+   of the root is the encoding of the tree with labels rendered by description() *)
+Theorem C13_dg_of_tree_shape : forall t,
+  wf (dg_of_tree t) /\ dag (dg_of_tree t) /\ sinks (dg_of_tree t) = [0] /\
+  descr (dg_of_tree t) 0 = Some (enc (relabel t)).
+Proof.
+  intros t. repeat split.
+  - apply dg_of_tree_wf.
+  - apply dg_of_tree_dag.
+  - apply dg_of_tree_sinks.
+  - apply descr_dg_of_tree.
+Qed.
+Print Assumptions C13_dg_of_tree_shape.
+
+(* the independent canonical form (children canonicalised recursively and sorted by a
+   structural order; no strings) that the check compares the implementation with:
+   equal canonical forms imply isomorphism *)
+Theorem C13_canon_eqb_sound : forall t1 t2,
+  clean_tree_b t1 = true -> clean_tree_b t2 = true ->
+  canon_eqb (canon t1) (canon t2) = true -> tiso t1 t2.
+Proof. exact canon_eqb_sound. Qed.
+Print Assumptions C13_canon_eqb_sound.
+
 (* the executable isomorphism test used on the observed graphs decides (soundly) the
    hypothesis of the theorems above *)
 Theorem C13_iso_b_sound : forall g g' fl,
@@ -127,4 +199,43 @@ Proof.
   destruct v as [|[|[|[|v]]]]; simpl in Hv; inversion Hv; subst; simpl in Hp;
     repeat (destruct Hp as [Hp|Hp]; [subst; simpl; auto with arith|]); try destruct Hp.
   destruct v; discriminate.
+Qed.
+
+(* non-vacuity of the tree theorems: two different presentations of one tree, and a
+   non-isomorphic one *)
+Definition ex_t1 := T "a" [T "b" [T "a" []; T "c" []]; T "a" []].
+Definition ex_t2 := T "a" [T "a" []; T "b" [T "c" []; T "a" []]].
+Definition ex_t3 := T "a" [T "b" [T "a" []]; T "a" [T "c" []]].
+
+Example tree_hypotheses_satisfiable :
+  names_ok_b ex_t1 = true /\ names_ok_b ex_t2 = true /\ names_ok_b ex_t3 = true /\
+  graph_eq (dg_of_tree ex_t1) (dg_of_tree ex_t2) = Some true /\
+  graph_eq (dg_of_tree ex_t1) (dg_of_tree ex_t3) = Some false /\
+  canon_eqb (canon ex_t1) (canon ex_t2) = true /\ canon_eqb (canon ex_t1) (canon ex_t3) = false /\
+  descr (dg_of_tree ex_t1) 0 = Some "((/n_a;;/n_c;)/n_b;;/n_a;)/n_a".
+Proof. vm_compute. repeat split. Qed.
+
+Example tree_iso_example : tiso ex_t1 ex_t2 /\ ~ tiso ex_t1 ex_t3.
+Proof.
+  split.
+  - apply (C13_tree_eq_iff_iso_partial ex_t1 ex_t2); reflexivity.
+  - intros H. apply (C13_tree_eq_iff_iso_partial ex_t1 ex_t3) in H; try reflexivity. discriminate H.
+Qed.
+
+(* a single-rooted DAG that is not a tree (node 3 is shared) meets the hypotheses of
+   C13_dag_eq_iff_unfold_iso *)
+Definition ex_d : dg :=
+  [mk_node "u0" "r" "" [1; 2]; mk_node "u1" "a" "" [3]; mk_node "u2" "b" "" [3]; mk_node "u3" "c" "" []].
+
+Example dag_unfold_hypotheses_satisfiable :
+  wf ex_d /\ dag ex_d /\ clean_labels ex_d /\ sinks ex_d = [0] /\
+  unfold ex_d 4 0 = Some (T "n_r" [T "n_a" [T "n_c" []]; T "n_b" [T "n_c" []]]).
+Proof.
+  split; [apply wf_b_spec; reflexivity|]. split; [|split; [|split; reflexivity]].
+  - exists (fun v => 3 - v). intros v nd p Hv Hp.
+    destruct v as [|[|[|[|v]]]]; simpl in Hv; inversion Hv; subst; simpl in Hp;
+      repeat (destruct Hp as [Hp|Hp]; [subst; simpl; auto with arith|]); try destruct Hp.
+    destruct v; discriminate.
+  - intros nd Hin. simpl in Hin.
+    repeat (destruct Hin as [Hin|Hin]; [subst; reflexivity|]). destruct Hin.
 Qed.
